@@ -611,3 +611,303 @@ func runBatch(p *check.Property, repo string, batch []mutant, base map[string]bo
 	}
 	return killed, true
 }
+
+// --- more operators -------------------------------------------------------------------
+
+// status gate made vacuous (always open)
+var mutGateOpen = mutOp{Name: "gate->vacuous", Doc: "make a status gate of observerImpl / subscriberImpl / a subject always pass (== 0 becomes >= 0; a compare-and-swap becomes an unconditional swap)",
+	Gen: func(m *model.Model, scope map[string]bool) []mutant {
+		var out []mutant
+		p := m.Obj.Ro
+		if !scope[p.PkgPath] {
+			return nil
+		}
+		info := p.TypesInfo
+		open, won := atomStatusOpen(info), atomCASWon(info)
+		for _, tname := range coreStatusTypes(m) {
+			for _, fd := range methodsOf(p, tname) {
+				if fd.Body == nil || notifKind(fd.Name.Name) < 0 || !strings.HasSuffix(fd.Name.Name, "WithContext") {
+					continue
+				}
+				n := 0
+				ast.Inspect(fd.Body, func(x ast.Node) bool {
+					switch e := x.(type) {
+					case *ast.BinaryExpr:
+						if k := open(e); k != 0 {
+							n++
+							repl := ">="
+							if k < 0 {
+								repl = "<"
+							}
+							out = append(out, mutant{ID: fmt.Sprintf("gate->vacuous:ro.%s.%s#%d", tname, fd.Name.Name, n), Op: "gate->vacuous", Group: "ro." + tname + "." + fd.Name.Name, File: fileOf(m, e.Pos()),
+								Edits: []edit{{offset(m, e.OpPos), offset(m, e.OpPos) + len(e.Op.String()), repl}}, Expect: "ro." + tname + "." + fd.Name.Name,
+								Desc: fmt.Sprintf("%s.%s: status test %q made vacuous", tname, fd.Name.Name, types.ExprString(e))})
+						}
+					case *ast.CallExpr:
+						if won(e) == +1 {
+							n++
+							out = append(out, mutant{ID: fmt.Sprintf("gate->vacuous:ro.%s.%s#%d", tname, fd.Name.Name, n), Op: "gate->vacuous", Group: "ro." + tname + "." + fd.Name.Name, File: fileOf(m, e.Pos()),
+								Edits:  []edit{{offset(m, e.Pos()), offset(m, e.End()), fmt.Sprintf("(atomic.SwapInt32(%s, %s) >= 0)", types.ExprString(e.Args[0]), types.ExprString(e.Args[2]))}},
+								Expect: "ro." + tname + "." + fd.Name.Name, Desc: fmt.Sprintf("%s.%s: compare-and-swap replaced by an unconditional swap", tname, fd.Name.Name)})
+						}
+					}
+					return true
+				})
+			}
+		}
+		return out
+	}}
+
+// drop the dropped-notification hook call
+var mutDropHook = mutOp{Name: "drop-hook", Doc: "delete a call of OnDroppedNotification on a refusing branch",
+	Gen: func(m *model.Model, scope map[string]bool) []mutant {
+		var out []mutant
+		p := m.Obj.Ro
+		if !scope[p.PkgPath] {
+			return nil
+		}
+		info := p.TypesInfo
+		for _, tname := range coreStatusTypes(m) {
+			for _, fd := range methodsOf(p, tname) {
+				if fd.Body == nil || notifKind(fd.Name.Name) < 0 || !strings.HasSuffix(fd.Name.Name, "WithContext") {
+					continue
+				}
+				n := 0
+				atoms := []guardAtom{atomStatusOpen(info), atomCASWon(info)}
+				refusal := map[ast.Stmt]bool{}
+				ast.Inspect(fd.Body, func(x ast.Node) bool {
+					ifs, ok := x.(*ast.IfStmt)
+					if !ok {
+						return true
+					}
+					var fail ast.Node
+					for _, a := range atoms {
+						if implies(ifs.Cond, true, a) {
+							fail = ifs.Else
+						} else if implies(ifs.Cond, false, a) {
+							fail = ifs.Body
+						}
+					}
+					if blk, ok := fail.(*ast.BlockStmt); ok && blk != nil {
+						for _, st := range blk.List {
+							refusal[st] = true
+						}
+					}
+					return true
+				})
+				ast.Inspect(fd.Body, func(x ast.Node) bool {
+					es, ok := x.(*ast.ExprStmt)
+					if !ok || !refusal[es] {
+						return true
+					}
+					call, ok := es.X.(*ast.CallExpr)
+					if !ok {
+						return true
+					}
+					if id, ok := ast.Unparen(call.Fun).(*ast.Ident); ok && id.Name == "OnDroppedNotification" {
+						if _, isVar := objOf(info, id).(*types.Var); isVar {
+							// only calls that are the refusal of a status gate (not the TryLock drop, not unicast's no-observer drops)
+							n++
+							out = append(out, mutant{ID: fmt.Sprintf("drop-hook:ro.%s.%s#%d", tname, fd.Name.Name, n), Op: "drop-hook", Group: "ro." + tname + "." + fd.Name.Name, File: fileOf(m, es.Pos()),
+								Edits: []edit{{offset(m, es.Pos()), offset(m, es.End()), "_ = 0"}}, Expect: "ro." + tname + "." + fd.Name.Name,
+								Desc: fmt.Sprintf("%s.%s: OnDroppedNotification call removed", tname, fd.Name.Name)})
+						}
+					}
+					return true
+				})
+			}
+		}
+		return out
+	}}
+
+// duplicate the forwarding call of a next slot
+var mutDupForward = mutOp{Name: "dup-forward", Doc: "forward the value twice in the next slot of an instrumentation operator",
+	Gen: func(m *model.Model, scope map[string]bool) []mutant {
+		var out []mutant
+		for _, sc := range m.SCs {
+			if !inScopeSC(sc, scope) {
+				continue
+			}
+			for _, e := range sc.Emits {
+				if e.Forwarder || !e.ToDest || e.Kind != model.EmitNext || e.Ctx.Kind != model.KSrc || e.Slot != model.SlotNext {
+					continue
+				}
+				call, ok := e.Node.(*ast.CallExpr)
+				if !ok || !(sc.Lit.Pos() <= call.Pos() && call.End() <= sc.Lit.End()) {
+					continue
+				}
+				es, isStmt := m.Parent(e.Pkg, call).(*ast.ExprStmt)
+				if !isStmt {
+					continue
+				}
+				src, err := os.ReadFile(fileOf(m, call.Pos()))
+				if err != nil {
+					continue
+				}
+				text := string(src[offset(m, call.Pos()):offset(m, call.End())])
+				out = append(out, mutant{ID: "dup-forward:" + e.Key, Op: "dup-forward", Group: sc.String(), File: fileOf(m, call.Pos()),
+					Edits: []edit{{offset(m, es.End()), offset(m, es.End()), "\n" + text}}, Expect: sc.String() + "/",
+					Desc: fmt.Sprintf("%s: value forwarded twice", e.Key)})
+			}
+		}
+		return out
+	}}
+
+// adapter passes a constant instead of its index parameter
+var mutAdapterConst = mutOp{Name: "adapter-const-index", Doc: "pass the constant 0 instead of the adapter's own index parameter to the user function of a delegating variant",
+	Gen: func(m *model.Model, scope map[string]bool) []mutant {
+		var out []mutant
+		for _, p := range m.Pkgs {
+			if !scope[p.PkgPath] {
+				continue
+			}
+			info := p.TypesInfo
+			for _, f := range p.Syntax {
+				for _, d := range f.Decls {
+					fd, ok := d.(*ast.FuncDecl)
+					if !ok || fd.Recv != nil || check.IsControlName(fd.Name.Name) {
+						continue
+					}
+					call := singleReturnCall(fd)
+					if call == nil {
+						continue
+					}
+					for _, a := range call.Args {
+						lit, ok := ast.Unparen(a).(*ast.FuncLit)
+						if !ok {
+							continue
+						}
+						litParams := map[types.Object]bool{}
+						for _, prm := range model.FlattenParams(info, lit.Type.Params) {
+							if prm != nil {
+								litParams[prm] = true
+							}
+						}
+						done := false
+						ast.Inspect(lit.Body, func(n ast.Node) bool {
+							cx, ok := n.(*ast.CallExpr)
+							if !ok || done {
+								return true
+							}
+							for _, ua := range cx.Args {
+								id, ok := ast.Unparen(ua).(*ast.Ident)
+								if !ok || !litParams[objOf(info, id)] {
+									continue
+								}
+								if b, ok := info.TypeOf(ua).Underlying().(*types.Basic); ok && b.Kind() == types.Int64 {
+									out = append(out, mutant{ID: fmt.Sprintf("adapter-const-index:%s.%s", model.ShortPkg(p.PkgPath), fd.Name.Name), Op: "adapter-const-index", Group: fd.Name.Name, File: fileOf(m, ua.Pos()),
+										Edits: []edit{{offset(m, ua.Pos()), offset(m, ua.End()), "0"}}, Expect: model.ShortPkg(p.PkgPath) + "." + fd.Name.Name + "/",
+										Desc: fmt.Sprintf("%s: index argument replaced by the constant 0", fd.Name.Name)})
+									done = true
+									return false
+								}
+							}
+							return true
+						})
+					}
+				}
+			}
+		}
+		return out
+	}}
+
+// failure branch falls through: delete the return after emitting the error
+var mutDropReturn = mutOp{Name: "error-branch-falls-through", Doc: "delete the return that ends the `if err != nil` branch after the Error notification, so the code after it still runs",
+	Gen: func(m *model.Model, scope map[string]bool) []mutant {
+		var out []mutant
+		for _, sc := range m.SCs {
+			if !inScopeSC(sc, scope) {
+				continue
+			}
+			info := sc.Pkg.TypesInfo
+			n := 0
+			ast.Inspect(sc.Lit.Body, func(x ast.Node) bool {
+				ifs, ok := x.(*ast.IfStmt)
+				if !ok || ifs.Else != nil || len(ifs.Body.List) < 2 {
+					return true
+				}
+				be, ok := ast.Unparen(ifs.Cond).(*ast.BinaryExpr)
+				if !ok || be.Op != token.NEQ {
+					return true
+				}
+				id, ok := ast.Unparen(be.X).(*ast.Ident)
+				if !ok || !isErrorType(info.TypeOf(id)) {
+					return true
+				}
+				last, ok := ifs.Body.List[len(ifs.Body.List)-1].(*ast.ReturnStmt)
+				if !ok || len(last.Results) != 0 {
+					return true
+				}
+				// something must follow the if statement in its block
+				blk, ok := m.Parent(sc.Pkg, ifs).(*ast.BlockStmt)
+				if !ok || blk.List[len(blk.List)-1] == ast.Stmt(ifs) {
+					return true
+				}
+				n++
+				out = append(out, mutant{ID: fmt.Sprintf("error-branch-falls-through:%s#%d", sc, n), Op: "error-branch-falls-through", Group: sc.String(), File: fileOf(m, last.Pos()),
+					Edits: []edit{{offset(m, last.Pos()), offset(m, last.End()), ""}}, Expect: sc.String() + "/",
+					Desc: fmt.Sprintf("%s: return after the Error notification removed", sc)})
+				return true
+			})
+		}
+		return out
+	}}
+
+// unwrap sync.Once around close
+var mutOnceUnwrap = mutOp{Name: "once-unwrap", Doc: "replace once.Do(func() { close(ch) }) by a direct close(ch)",
+	Gen: func(m *model.Model, scope map[string]bool) []mutant {
+		var out []mutant
+		for _, sc := range m.SCs {
+			if !inScopeSC(sc, scope) {
+				continue
+			}
+			info := sc.Pkg.TypesInfo
+			ast.Inspect(sc.Lit.Body, func(x ast.Node) bool {
+				call, ok := x.(*ast.CallExpr)
+				if !ok || !model.IsMethod(model.Callee(info, call), "sync", "Once", "Do") || len(call.Args) != 1 {
+					return true
+				}
+				lit, ok := ast.Unparen(call.Args[0]).(*ast.FuncLit)
+				if !ok || len(lit.Body.List) != 1 {
+					return true
+				}
+				src, err := os.ReadFile(fileOf(m, call.Pos()))
+				if err != nil {
+					return true
+				}
+				inner := string(src[offset(m, lit.Body.List[0].Pos()):offset(m, lit.Body.List[0].End())])
+				sel := ast.Unparen(call.Fun).(*ast.SelectorExpr)
+				out = append(out, mutant{ID: "once-unwrap:" + sc.String(), Op: "once-unwrap", Group: sc.String(), File: fileOf(m, call.Pos()),
+					Edits: []edit{{offset(m, call.Pos()), offset(m, call.End()), "func() { _ = &" + types.ExprString(sel.X) + "; " + inner + " }()"}}, Expect: sc.String() + "/",
+					Desc: fmt.Sprintf("%s: sync.Once around the close removed", sc)})
+				return true
+			})
+		}
+		return out
+	}}
+
+// limiter: forward although the limit is reached
+var mutIgnoreLimit = mutOp{Name: "ignore-limit", Doc: "replace the !rate.Reached test of the limiter by true",
+	Gen: func(m *model.Model, scope map[string]bool) []mutant {
+		var out []mutant
+		for _, sc := range m.SCs {
+			if !inScopeSC(sc, scope) {
+				continue
+			}
+			ast.Inspect(sc.Lit.Body, func(x ast.Node) bool {
+				u, ok := x.(*ast.UnaryExpr)
+				if !ok || u.Op != token.NOT {
+					return true
+				}
+				sel, ok := ast.Unparen(u.X).(*ast.SelectorExpr)
+				if !ok || sel.Sel.Name != "Reached" {
+					return true
+				}
+				out = append(out, mutant{ID: "ignore-limit:" + sc.String(), Op: "ignore-limit", Group: sc.String(), File: fileOf(m, u.Pos()),
+					Edits: []edit{{offset(m, u.Pos()), offset(m, u.Pos()), "(true || "}, {offset(m, u.End()), offset(m, u.End()), ")"}}, Expect: sc.String() + "/",
+					Desc: fmt.Sprintf("%s: limit test replaced by true", sc)})
+				return true
+			})
+		}
+		return out
+	}}
